@@ -6,11 +6,13 @@ import (
 	"bytes"
 	"encoding/json"
 	"fmt"
+	"reflect"
 	"runtime"
 	"sort"
 	"strings"
 	"sync"
 	"sync/atomic"
+	"time"
 
 	"github.com/google/safehtml/template"
 	"github.com/google/safehtml/template/uncheckedconversions"
@@ -40,7 +42,7 @@ func init() {
 		ID:    "C09",
 		Level: "exploration",
 		Race:  true,
-		Rule: "many short concurrent runs: a fresh set (3-6 members sharing helper templates, some with members whose analysis fails), 2-16 goroutines released together, each doing first and repeated ExecuteTemplate / ExecuteTemplateToHTML / Lookup+Execute and read-only Templates, Name, DefinedTemplates, Lookup calls on seeded member choices; build-tag hooks in the engine (between analysis and execution, on entering analysis, in the failure path, inside commit) call back into the monitor, which logs the event order and injects seeded Gosched/spins. " +
+		Rule: "many short concurrent runs: a fresh set (3-6 members sharing helper templates, some with members whose analysis fails), 2-16 goroutines released together, each doing first and repeated ExecuteTemplate / ExecuteTemplateToHTML / Lookup+Execute and read-only Templates, Name, DefinedTemplates, Lookup calls on seeded member choices; the template function tick, called at the start of member bodies, makes read-only calls back into the set (Lookup, Templates, DefinedTemplates) during execution; a run whose calls have not all returned after 90 s is a deadlock; build-tag hooks in the engine (between analysis and execution, on entering analysis, in the failure path, inside commit) call back into the monitor, which logs the event order and injects seeded Gosched/spins. " +
 			"Oracles: (1) the Go race detector (reports counted from its log, de-duplicated by stack pair); (2) every operation's result (bytes, error-or-not) equals the result of the same call made alone on a fresh set with the same definitions. non-trivial = run with >=2 goroutines executing different members; distinct = distinct hook event orders (interleavings) observed",
 		Assumptions: []string{"Go race detector (happens-before, reports only races that occur in the executed schedules)", "sequential reference: the engine on a fresh set (property C06 makes it independent of order)", "schedules are not reproducible; replay repeats the same workload 200 times"},
 		Run:         run,
@@ -57,8 +59,26 @@ type opResult struct {
 	panic string
 }
 
+// tickCalls counts calls of the template function "tick"; every call makes one read-only
+// call back into the set that is being executed (user code called during an execution may do
+// that: Lookup to test for an optional partial, DefinedTemplates for a message, ...).
+var tickCalls, freshTypes uint64
+
 func mkSet(texts []string) (*template.Template, error) {
-	t := template.New("root").Funcs(template.FuncMap{"tick": func() string { return "" }})
+	var t *template.Template
+	t = template.New("root").Funcs(template.FuncMap{"tick": func() string {
+		switch n := atomic.AddUint64(&tickCalls, 1); n % 4 {
+		case 0:
+			t.Lookup("m0")
+		case 1:
+			t.Templates()
+		case 2:
+			t.DefinedTemplates()
+		default:
+			t.Lookup("nope")
+		}
+		return ""
+	}})
 	for _, tx := range texts {
 		if _, err := t.ParseFromTrustedTemplate(uncheckedconversions.TrustedTemplateFromStringKnownToSatisfyTypeContract(tx)); err != nil {
 			return nil, err
@@ -135,6 +155,17 @@ func hook(point, name string) {
 	}
 }
 
+// runWatchdog bounds one concurrent run (a few calls on small templates: milliseconds).
+const runWatchdog = 90 * time.Second
+
+func firstLines(s string, n int) string {
+	l := strings.SplitN(s, "\n", n+1)
+	if len(l) > n {
+		l = l[:n]
+	}
+	return strings.Join(l, " | ")
+}
+
 func isExec(k string) bool { return k == "exect" || k == "execthtml" || k == "lookupexec" }
 
 // runOnce performs one concurrent run and returns violations as strings.
@@ -148,6 +179,14 @@ func runOnce(c *core.Ctx, k kase) (interleaving string, bad string) {
 	for _, d := range k.Data {
 		m := d.Build()
 		m["DOTS"] = ".."
+		// values whose dynamic types no execution in this process has seen before: type-keyed
+		// state of the engine (caches) is then first written during the concurrent phase
+		for _, f := range []string{"T0", "T1"} {
+			n := int(atomic.AddUint64(&freshTypes, 1))
+			v := reflect.New(reflect.ArrayOf(n%4000+1, reflect.TypeOf(""))).Elem()
+			v.Index(0).SetString("a<b")
+			m[f] = v.Interface()
+		}
 		data = append(data, m)
 	}
 	hookMu.Lock()
@@ -171,7 +210,17 @@ func runOnce(c *core.Ctx, k kase) (interleaving string, bad string) {
 		}(gi)
 	}
 	start.Done()
-	done.Wait()
+	finished := make(chan struct{})
+	go func() { done.Wait(); close(finished) }()
+	select {
+	case <-finished:
+	case <-time.After(runWatchdog):
+		// logical verdict: some call has not returned although nothing else is running
+		buf := make([]byte, 1<<16)
+		buf = buf[:runtime.Stack(buf, true)]
+		template.VerifHook = nil
+		return "", fmt.Sprintf("DEADLOCK: after %v the concurrent calls have not all returned (each returns within milliseconds when made alone); goroutines: %s", runWatchdog, firstLines(string(buf), 60))
+	}
 	template.VerifHook = nil
 	hookMu.Lock()
 	interleaving = strings.Join(hookEvents, " ")
@@ -251,6 +300,9 @@ func replay(c *core.Ctx, raw json.RawMessage) error {
 func genCase(r *core.Rng) kase {
 	set := gen.GenSet(r, gen.SetOpts{FailMembers: r.Intn(2)})
 	k := kase{Texts: set.Texts, Data: hist.GenData(r, 2), HookSeed: r.U64()}
+	// a member that prints values of fresh dynamic types in contexts without a typed sanitizer
+	k.Texts = append(k.Texts, `{{define "mt"}}{{tick}}<p title="{{$.T0}}" alt='{{$.T1}}'>{{$.T1}}</p><i class="{{$.T0}}">{{$.T0 | html}}</i>{{end}}`)
+	set.Members = append(set.Members, "mt", "mt")
 	g := 2 + r.Intn(15)
 	if r.Intn(3) == 0 {
 		g = 2 + r.Intn(3)
@@ -281,6 +333,9 @@ func run(c *core.Ctx) {
 		il, bad := runOnce(c, k)
 		if bad != "" {
 			c.Violation(k, "%s", bad)
+			if strings.HasPrefix(bad, "DEADLOCK") {
+				return // blocked goroutines are left behind: nothing after this run can be trusted
+			}
 			continue
 		}
 		members := map[string]bool{}
